@@ -314,4 +314,4 @@ if "probes" in req:
         rows.append(row)
     out["probes"] = rows
 
-print(json.dumps(out))
+print(json.dumps(out, default=__import__("_util").jdefault))
